@@ -999,7 +999,42 @@ def check_cache_keys(ctx: Ctx) -> None:
             # through the same canonical form - computed from the raw spelling, two spellings of one key (a/b/.., a symlink)
             # would give different values and the first one asked for would be served to both
             _check_canonical_key(ctx, fi, node, t)
+    # one computed value, one key: a store that sits in a loop and whose key changes with the loop while the value does not
+    # registers one answer under several questions (the nearest ignore file of a directory filed under all its ancestors)
+    for fi in repo.functions.values():
+        if not fi.module.name.startswith("flowmark.file_resolver") or isinstance(fi.node, ast.Lambda) or fi.name == "__init__":
+            continue
+        flow = prog.flow(fi)
+        selfname = fi.params[0] if fi.cls is not None and fi.params else None
+        for h in [x for x in flow.cfg.nodes if x.kind == "for"]:
+            lvars = {x.id for x in ast.walk(h.ast.target) if isinstance(x, ast.Name)}
+            for node in flow.loop_body_nodes(h):
+                stores: list[tuple[ast.AST, ast.AST, ast.AST]] = []
+                if node.kind == "stmt" and isinstance(node.ast, ast.Assign) and len(node.ast.targets) == 1 and isinstance(node.ast.targets[0], ast.Subscript):
+                    t_ = node.ast.targets[0]
+                    stores.append((t_.value, t_.slice, node.ast.value))
+                for c in flow.calls_in(node):
+                    if isinstance(c.func, ast.Attribute) and c.func.attr == "setdefault" and len(c.args) == 2:
+                        stores.append((c.func.value, c.args[0], c.args[1]))
+                for tab, key_e, val_e in stores:
+                    if not (isinstance(tab, ast.Attribute) and isinstance(tab.value, ast.Name) and tab.value.id == selfname):
+                        continue
+                    key_names = {x.id for x in ast.walk(expand_expr_safe(prog, fi, key_e, node)) if isinstance(x, ast.Name)}
+                    val_names = {x.id for x in ast.walk(expand_expr_safe(prog, fi, val_e, node)) if isinstance(x, ast.Name)}
+                    varies = bool(key_names & lvars) and not (val_names & lvars)
+                    ctx.ob("R-RESOLVE-cache", f"{fi.qual} :: {norm(tab)} one key per computed value", not varies,
+                           f"inside the loop over `{norm(h.ast.target)}` the key `{norm(key_e)}` changes with the loop but the stored value `{norm(val_e)[:40]}` does not: "
+                           "one answer is filed under several keys, and a later lookup of another key gets an answer computed for a different directory", where(fi, node))
     ctx.require("R-RESOLVE-cache", "memoising stores in the file resolver", n, 1)
+
+
+def expand_expr_safe(prog, fi: FuncInfo, e: ast.AST, node: Node) -> ast.AST:
+    from ..decide import expand_expr
+
+    try:
+        return expand_expr(prog, fi, e, node, strict=False)
+    except Exception:  # noqa: BLE001
+        return e
 
 
 _CANON = ("resolve", "absolute", "lower", "upper", "casefold", "strip", "expanduser", "as_posix", "normcase")
